@@ -254,6 +254,13 @@ class KeyView:
 
 class MetaVarSet:
     """set(x_features.keys()) & set(y_features.keys())"""
+    ordered = False
+
+    def sorted(self, I, node):
+        o = MetaVarSet(self.fx, self.fy)
+        o.ordered = True          # sorted(...): a deterministic order; the loop rule itself covers every order
+        return o
+
     def __init__(self, fx, fy):
         self.fx, self.fy = fx, fy
         self.names = [('plain', n) for n in fx.plain if n in fy.plain] + [('deep', n) for n in fx.deep if n in fy.deep]
@@ -276,6 +283,7 @@ class MetaVarSet:
         w = I.w
         x, y = I.unif_inputs
         summ = loop_summary(I, st, env, module, qual)
+        summ['unordered_uses'] = summ.get('unordered_uses', 0) + (0 if self.ordered else 1)
         # (1) some iteration leaves the function early (return / raise)
         for gi, g in enumerate(summ['early']):
             for kind, name in self.names:
@@ -392,6 +400,17 @@ def loop_summary(I, st, env, module, qual):
         else:
             early.setdefault(('raise', val.exc, val.msg, succ), []).append(cond)
     nf = z3.Or(*normal) if normal else z3.BoolVal(False)
+    # commutation of two normal iterations (for loops over unordered collections)
+    upd_cases = [(z3.And(*o['pc']) if o['pc'] else z3.BoolVal(True), o['value'][1]) for o in outs if o['kind'] == 'normal']
+
+    def upd(fa, fb, Min):
+        res = Min
+        for cnd, M1 in reversed(upd_cases):
+            res = z3.If(z3.substitute(cnd, (a, fa), (b, fb)), z3.substitute(M1, (a, fa), (b, fb), (M0, Min)), res)
+        return res
+    a1, b1, a2, b2 = z3.Const('it1_x', w.Feat), z3.Const('it1_y', w.Feat), z3.Const('it2_x', w.Feat), z3.Const('it2_y', w.Feat)
+    both = z3.And(z3.substitute(nf, (a, a1), (b, b1)), z3.substitute(nf, (a, a2), (b, b2)))
+    commute = z3.Implies(both, upd(a2, b2, upd(a1, b1, M0))[f0] == upd(a1, b1, upd(a2, b2, M0))[f0])
     groups = []
     for k, conds in early.items():
         cf = z3.Or(*conds)
@@ -403,7 +422,8 @@ def loop_summary(I, st, env, module, qual):
         groups.append(g)
     for kind, goal, what in obligations:
         I.oblige(kind, goal, st, extra=what, pc=[])
-    res = dict(normal=lambda fa, fb: z3.substitute(nf, (a, fa), (b, fb)), early=groups, paths=len(outs))
+    res = dict(normal=lambda fa, fb: z3.substitute(nf, (a, fa), (b, fb)), early=groups, paths=len(outs), commute=commute,
+               commute_inputs=dict(it1_x=a1, it1_y=b1, it2_x=a2, it2_y=b2))
     cache[ckey] = res
     return res
 
